@@ -11,7 +11,8 @@
      no_session     "nothing, or a session created in this call" (unfolded in
                     C02_no_session_meaning below)
      under k e      the persistence call e is about ID k
-     creation_ev    the draw, flush saves of present IDs, the save of the new ID *)
+     creation_ev    the draw, flush saves of present IDs, the save of the new ID
+     ok s           plan s = [] /\ cache_ok s /\ NoDup (map fst (cache s)) *)
 From Sessions Require Import Model.Base Model.Sess Model.Hist
   Proofs.SessDefs Proofs.StartLaws Proofs.StartLaws2 Proofs.StartLaws3.
 
@@ -26,7 +27,11 @@ Theorem C02_no_session_meaning :
                 lookup (store s') (KGen (supply s)) =
                   Some (codec (conf s) (mkRec (now s) (now s) (q_addr q) (q_ua q) None None (Some [])))
     else res = Ok None /\ nck = [].
-Proof. intros. unfold no_session, fresh_rec. reflexivity. Qed.
+Proof. exact no_session_meaning. Qed.
+
+Theorem C02_ok_meaning :
+  forall s, ok s <-> plan s = [] /\ cache_ok s /\ NoDup (map fst (cache s)).
+Proof. exact ok_meaning. Qed.
 
 (* A 24-character value that is neither cached nor stored. *)
 Theorem C02_unknown :
@@ -38,6 +43,7 @@ Theorem C02_unknown :
       no_session s q s' res nck /\
       (forall k', k' <> KGen (supply s) -> Lc s' k' = Lc s k') /\
       (q_create q = false -> s' = log s (EvLoad k true)) /\
+      ok s' /\ conf s' = conf s /\
       evs s' = new ++ evs s /\
       (key_drawn s k ->
          KGen (supply s) <> k /\ L s' k = None /\ filter (under k) new = [EvLoad k true]).
@@ -53,6 +59,7 @@ Theorem C02_nolookup :
       no_session s q s' res nck /\
       (forall k', k' <> KGen (supply s) -> Lc s' k' = Lc s k') /\
       (q_create q = false -> s' = s) /\
+      ok s' /\ conf s' = conf s /\
       evs s' = new ++ evs s /\ Forall (creation_ev s) new.
 Proof. exact no_lookup. Qed.
 
@@ -62,6 +69,7 @@ Theorem C02_nolookup_events :
 Proof. exact creation_ev_kind. Qed.
 
 Print Assumptions C02_no_session_meaning.
+Print Assumptions C02_ok_meaning.
 Print Assumptions C02_unknown.
 Print Assumptions C02_nolookup.
 Print Assumptions C02_nolookup_events.
